@@ -103,7 +103,13 @@ fn gen_query(w: &mut Rng, belief: &BTreeMap<ModName, String>, removed: &[ModName
   let kind = rng_pick_str(w, QUERY_KINDS);
   let existing: Vec<&ModName> = belief.keys().collect();
   let module: ModName = match w.below(20) {
-    0 => vec!["Nope".into(), "NeverExisted".into()],
+    0 => match w.below(6) {
+      0 => vec!["<outside>".into()],
+      1 => vec!["<untitled>".into()],
+      2 => vec!["<rootdir>".into()],
+      3 => vec!["<short>".into()],
+      _ => vec!["Nope".into(), "NeverExisted".into()],
+    },
     1 | 2 if !removed.is_empty() => w.pick(removed).clone(),
     3 | 4 if !universe.is_empty() => w.pick(universe).clone(),
     _ if !existing.is_empty() => (*w.pick(&existing)).clone(),
